@@ -343,7 +343,12 @@ func TestRandomConversations(t *testing.T) {
 	}
 	l := env(t)
 	r.Rule(ruleText)
+	box := &cl.Infra{}
 	r.Rapid(t, "TestRandomConversations", r.Pick(25, 400), func(rt *rapid.T) {
+		if box.Err() != nil {
+			rapid.Bool().Draw(rt, "skipped-after-infra-error")
+			return
+		}
 		n := rapid.IntRange(1, 12).Draw(rt, "conversations")
 		var convs []conversation
 		for i := 0; i < n; i++ {
@@ -382,16 +387,21 @@ func TestRandomConversations(t *testing.T) {
 		c := convCase{Tables: "arp", Convs: convs}
 		verr, infra := runConvs(l, c, 20*time.Second)
 		if infra != nil {
-			rt.Fatalf("infra: %v", infra)
+			box.Set(infra)
+			return
 		}
 		if verr != nil {
 			cerr, infra := confirmConvs(r, l, c)
 			if infra != nil {
-				rt.Fatalf("infra: %v", infra)
+				box.Set(infra)
+				return
 			}
 			if cerr != nil {
 				r.Fail(rt, "TestRandomConversations", c, "%s", strings.TrimSpace(cerr.Error()))
 			}
 		}
 	})
+	if e := box.Err(); e != nil {
+		t.Fatalf("infra: %v", e)
+	}
 }
